@@ -22,10 +22,10 @@ func init() { register("C18", "other", runC18) }
 type nilProv struct {
 	p        *core.Program
 	fns      []*ssa.Function
-	decoded  map[*ssa.Alloc]bool        // locals passed to yaml.Unmarshal
-	fieldNil map[string]bool            // "Type.field" assigned a maybe-nil value somewhere
-	retNil   map[*ssa.Function][]bool   // result i may be nil while the error result is nil
-	memo     map[ssa.Value]int          // 0 unknown, 1 in progress, 2 no, 3 yes
+	decoded  map[*ssa.Alloc]bool      // locals passed to yaml.Unmarshal
+	fieldNil map[string]bool          // "Type.field" assigned a maybe-nil value somewhere
+	retNil   map[*ssa.Function][]bool // result i may be nil while the error result is nil
+	memo     map[ssa.Value]int        // 0 unknown, 1 in progress, 2 no, 3 yes
 }
 
 func (n *nilProv) mayNil(v ssa.Value) bool {
@@ -439,6 +439,43 @@ func runC18(c *Ctx) {
 		}
 		r.Add(core.Obligation{Rule: "persist", Key: "persist handleRequest saves the acknowledged lease", Func: core.FuncName(fn), Pos: c.P.Pos(fn.Pos()), Status: st,
 			Basis: "every path from the ACK construction to a return passes saveConfig", Detail: det})
+	}
+	// every key of a lease table gets its own Lease object: a pointer stored into the table inside a loop comes from an
+	// allocation that is executed again before the next store (the module's language version gives loop variables one
+	// instance per loop, so `tt[k] = &v` with a range variable makes every key share the last lease)
+	r.Rule("distinct-leases", "a lease pointer stored into a table in a loop is allocated once per iteration", 1)
+	for _, fn := range c.P.LibFunctions() {
+		if fn.Pkg == nil || fn.Pkg.Pkg.Name() != "dhcp4_spoofer" {
+			continue
+		}
+		n := 0
+		core.EachInstr(fn, func(i ssa.Instruction) {
+			mu, ok := i.(*ssa.MapUpdate)
+			if !ok {
+				return
+			}
+			pt, isPtr := mu.Value.Type().Underlying().(*types.Pointer)
+			if !isPtr {
+				return
+			}
+			if nt, isNamed := pt.Elem().(*types.Named); !isNamed || nt.Obj().Name() != "Lease" {
+				return
+			}
+			al, isAlloc := mu.Value.(*ssa.Alloc)
+			if !isAlloc {
+				return
+			}
+			if !reachesWithout(i, i, func(ssa.Instruction) bool { return false }) {
+				return // not in a loop
+			}
+			n++
+			st := core.Proved
+			if reachesWithout(i, i, func(x ssa.Instruction) bool { return x == ssa.Instruction(al) }) {
+				st = core.Violated
+			}
+			r.Add(core.Obligation{Rule: "distinct-leases", Key: fmt.Sprintf("distinct-leases %s store %d", core.FuncName(fn), n), Func: core.FuncName(fn), Pos: c.P.Pos(core.PosOf(i)), Status: st,
+				Basis: "the allocation of the stored Lease lies on every path from one store to the next", Detail: "the Lease stored into the table is allocated outside the loop (" + al.Comment + " at " + c.P.Pos(al.Pos()) + "): every key inserted by the loop points at the same object, which ends up holding the last entry of the file"})
+		})
 	}
 }
 
